@@ -6,7 +6,7 @@ from fractions import Fraction
 NUM_RE = re.compile(r"([+-]?)(\d+\.?\d*|\.\d+)(?:[eE]([+-]?\d+))?(?:\((\d+)\))?\Z")
 CIF_INVALID_NUMBER = 72
 CIF_ARGUMENT_ERROR = 6
-EXP_SAT = 214748363          # exponents whose accumulated magnitude reaches this are "far beyond the range of double"
+EXP_SAT = 100000000          # exponents of this magnitude are "far beyond the range of double": only "no crash" is demanded
 
 
 def kv(line):
